@@ -14,7 +14,7 @@ import ast
 
 import sympy as sp
 
-from .loader import U, AnalysisError
+from .loader import U, AnalysisError, expand_pred
 from .pathwalk import beval
 
 S = sp.Function('S')               # sum over the element axis (linear)
@@ -125,11 +125,12 @@ class Lifter:
         last = s.body[-1] if s.body else None
         if not isinstance(last, (ast.Return, ast.Raise)):
             return False
-        t = U(s.test)
+        test = expand_pred(self.repo, self.cls, s.test)
+        t = U(test)
         if any(m in t for m in GUARD_MARKS):
             return True
         # comparisons of scalars with 0: `sigma <= 0`
-        for n in ast.walk(s.test):
+        for n in ast.walk(test):
             if isinstance(n, ast.Compare) and isinstance(
                     n.comparators[0], ast.Constant) and isinstance(
                     n.comparators[0].value, (int, float)) \
